@@ -1,6 +1,10 @@
 #!/bin/bash
 # usage: run.sh <property|all> <quick|thorough>   (or: run.sh -replay <file>)
 # Runs the static checker against /repo's current working tree.
+# thorough additionally (i) re-checks call-graph unreachability on the CHA graph, (ii) replays the
+# seeded changes kept under seeded/ against scratch copies of the current tree and records in the
+# evidence whether the property's rules still report them (self-validation of the checker; it never
+# changes the verdict on /repo itself).
 set -u
 export GOFLAGS=-mod=mod GOPROXY=off GOSUMDB=off GOTOOLCHAIN=local
 export PATH=/opt/veriftools/go1.26.8/bin:$PATH
@@ -8,9 +12,19 @@ unset GOWORK
 HERE="$(cd "$(dirname "$0")" && pwd)"
 REPO="${VERIF_REPO:-/repo}"
 if [ ! -x "$HERE/bin/ykcheck" ] || [ -n "$(find "$HERE/checker" -name '*.go' -newer "$HERE/bin/ykcheck" 2>/dev/null | head -1)" ]; then
+  mkdir -p "$HERE/bin"
   (cd "$HERE/checker" && go build -o "$HERE/bin/ykcheck" .) || { echo "UNDECIDED: checker build failed"; exit 2; }
 fi
 if [ "${1:-}" = "-replay" ]; then
   exec "$HERE/bin/ykcheck" -repo "$REPO" -verif "$HERE" -replay "$2"
 fi
-exec "$HERE/bin/ykcheck" -repo "$REPO" -verif "$HERE" -property "$1" -tier "${2:-quick}" ${3:-}
+PROP="$1"; TIER="${2:-quick}"
+EXTRA=""
+if [ "$TIER" = "thorough" ] && [ "$PROP" != "all" ] && [ -d "$HERE/seeded" ]; then
+  SCR="${TMPDIR:-/tmp}/ykseed.$$"
+  mkdir -p "$SCR"
+  trap 'rm -rf "$SCR"' EXIT
+  python3 "$HERE/tools/replay_seeds.py" "$HERE" "$REPO" "$PROP" "$SCR" > "$SCR/replay.json" 2>"$SCR/replay.err" && EXTRA="-extra $SCR/replay.json"
+fi
+"$HERE/bin/ykcheck" -repo "$REPO" -verif "$HERE" -property "$PROP" -tier "$TIER" $EXTRA ${3:-}
+exit $?
